@@ -394,6 +394,131 @@ def mpeg_domain():
                                 yield [vb, lb, prot, bri, sri, pad, 0, mode, 0]
 
 
+# ---- MPEG Layer III with Xing/Info(+LAME) and VBRI headers ---------------------------------------------
+VBR_KEYS = Mpeg.KEYS + ["kind", "frames", "bytes", "lame", "lame_delay", "lame_padding", "ln", "ld"]
+LAME_VS = b"LAME3.99r"
+
+
+def intround(x):
+    return int(round(x))
+
+
+def vbr_impl(data):
+    mp3 = M().mp3
+    i = mp3.MPEGInfo(io.BytesIO(data))
+    return {"bitrate": i.bitrate, "sample_rate": i.sample_rate, "channels": i.channels, "layer": i.layer, "version10": int(i.version * 10),
+            "mode": i.mode, "sketchy": int(i.sketchy), "length": i.length, "bitrate_mode": int(i.bitrate_mode),
+            "encoder_info": i.encoder_info}
+
+
+def vbr_ref(md, filesize):
+    """what MPEGFrame._parse_vbr_header / MPEGInfo compute from the parsed tag values (float steps redone)"""
+    r = {k: md[k] for k in ("sample_rate", "channels", "layer", "version10", "mode")}
+    br = md["bitrate"]
+    if md["kind"] in (1, 2):
+        r["sketchy"] = 0
+        if md["frames"] != -1:
+            samples0 = md["frame_size"] * md["frames"]
+            if md["bytes"] != -1 and samples0 > 0:
+                audio_bytes = max(0, md["bytes"] - md["frame_length"])
+                br = intround((audio_bytes * 8 * md["sample_rate"]) / float(samples0))
+            r["length"] = float(md["ln"]) / md["ld"]
+        else:
+            r["length"] = 8 * filesize / float(br)
+    elif md["kind"] == 3:
+        r["sketchy"] = 0
+        length = float(md["ln"]) / md["ld"]
+        r["length"] = length
+        if length:
+            br = int((md["bytes"] * 8) / length)
+    r["bitrate"] = br
+    return r
+
+
+def vbr_case(ctx, kind, p, tagp, tag):
+    """kind 'xing': tagp = [info, frames|None, bytes|None, toc, scale|None, lame(0/1), vbr_method, lowpass, delay, padding]
+       kind 'vbri': tagp = [delay, quality, bytes, frames, entries, scale, entry_size, toc_frames]"""
+    opt = lambda v: "-" if v is None else zs(v)
+    if kind == "xing":
+        info, frames, nbytes, toc, scale, lame, vm, lp, delay, padding = tagp
+        frame = mbuild(ctx, "xing_frame", *(p + [info, opt(frames), opt(nbytes), toc, opt(scale), hx(LAME_VS) if lame else "-", vm, lp, delay, padding]))
+    else:
+        frame = mbuild(ctx, "vbri_frame", *(p + tagp))
+    normal = mbuild(ctx, "mpeg", *p)
+    data = frame + normal * 2
+    F = Mpeg()
+    spec = F.spec(p)
+    st, impl = run_impl(lambda: vbr_impl(data))
+    mst, mv = mdecode(ctx, "mpeg_vbr", frame)
+    ctx.corr_cases += 1
+    ctx.oracle_cases += 1
+    ctx.count("mpeg-vbr:%s:%s" % (kind, tag))
+    ctx.case(("vbr", kind, tuple(p), tuple(tagp)))
+    slug = {"fmt": "mpeg_" + kind, "params": p, "tag": [("-" if x is None else x) for x in tagp]}
+    if mst != "ok":
+        ctx.disagree("c05.mpeg_vbr", "model fails on %s %r %r: %s" % (kind, p, tagp, mv), slug)
+        return True
+    md = dict(zip(VBR_KEYS, mv))
+    if st == "ok":
+        bad = cmp_dicts(impl, vbr_ref(md, len(data)))
+        if bad:
+            ctx.disagree("c05.mpeg_vbr", "%s %r %r: %s" % (kind, p, tagp, "; ".join(bad)), slug)
+    if st != "ok":
+        ctx.violation("oracle", "mpeg: stream with %s header not loaded (%s)" % (kind, impl), dict(slug, **{"class": "mpeg-vbr-rejected"}))
+        return False
+    # parameter oracle: the duration is the header's frame count times the samples per frame (minus the LAME delay and padding)
+    spf = 1152 if spec["version10"] == 10 else 576
+    ref = {"sample_rate": spec["sample_rate"], "channels": spec["channels"], "layer": 3, "version10": spec["version10"], "sketchy": 0}
+    if kind == "xing":
+        if frames is not None:
+            samples = spf * frames - (delay + padding if lame else 0)
+            ref["length"] = fdiv(max(samples, 0), spec["sample_rate"])
+        if lame:
+            ref["encoder_info"] = "LAME 3.99.1+"
+    else:
+        ref["length"] = fdiv(spf * tagp[3], spec["sample_rate"])
+        ref["encoder_info"] = "FhG"
+    bad = cmp_dicts(impl, ref)
+    if bad:
+        ctx.violation("oracle", "mpeg: %s header: reported attributes differ: %s" % (kind, ", ".join(sorted(b.split(":")[0] for b in bad))),
+                      dict(slug, **{"class": "mpeg-vbr-mismatch", "detail": bad}))
+        return False
+    return True
+
+
+def run_vbr(ctx, n_random):
+    rng = ctx.rng
+    l3 = [p for p in mpeg_domain() if p[1] == 1]
+    u32 = lat(32)
+    # every Layer III header once with a full Xing+LAME tag and once with VBRI
+    for i, p in enumerate(l3):
+        if i % 2 == 0:
+            vbr_case(ctx, "xing", p, [i % 4 // 2, rng.choice(u32), rng.choice(u32), 1, 57, 1, 4, 190, rng.choice([0, 576, 1105, 4095]), rng.choice([0, 1, 1105, 4095])], "all-headers")
+        else:
+            vbr_case(ctx, "vbri", p, [0, 75, rng.choice(u32), rng.choice(u32), 3, 1, rng.choice([2, 4]), 100], "all-headers")
+    base = [3, 1, 1, 9, 0, 0, 0, 1, 0]
+    # flag combinations and field extremes on one header
+    for info in (0, 1):
+        for fr in (None, 0, 1, 1000, 2 ** 32 - 1):
+            for by in (None, 0, 416, 417, 418, 2 ** 32 - 1):
+                for toc in (0, 1):
+                    for sc in (None, 100):
+                        for lame in (0, 1):
+                            vbr_case(ctx, "xing", base, [info, fr, by, toc, sc, lame, 2, 160, 576, 1105], "flags")
+    for d in (0, 1, 15, 16, 255, 256, 4094, 4095):
+        for pd in (0, 1, 255, 256, 4095):
+            vbr_case(ctx, "xing", base, [0, 5, 1000, 1, 50, 1, 3, 0, d, pd], "delay-padding")
+    for _ in range(n_random):
+        p = rng.choice(l3)
+        if rng.random() < 0.6:
+            vbr_case(ctx, "xing", p, [rng.randrange(2), rng.choice([None, rnd(rng, 32)]), rng.choice([None, rnd(rng, 32)]), rng.randrange(2),
+                                      rng.choice([None, rnd(rng, 32)]), rng.randrange(2), rng.randrange(16), rng.randrange(256),
+                                      rng.randrange(4096), rng.randrange(4096)], "random")
+        else:
+            vbr_case(ctx, "vbri", p, [rnd(rng, 16), rnd(rng, 16), rnd(rng, 32), rnd(rng, 32), rng.randrange(0, 40), rnd(rng, 16),
+                                      rng.choice([2, 4]), rnd(rng, 16)], "random")
+
+
 # ---- generic fixed-header formats -----------------------------------------------------------------
 class Generic(Fmt):
     KEYS = []
@@ -1269,6 +1394,7 @@ def sample_mpeg(ctx, n, data):
                 body = data[i:i + fl]
                 if m2 == "ok" or b"Xing" in body[:64] or b"Info" in body[:64] or b"VBRI" in body[:64]:
                     found = mv
+                    found_at = i
                     break
         i = data.find(b"\xff", i + 1)
     ctx.corr_cases += 1
@@ -1276,12 +1402,22 @@ def sample_mpeg(ctx, n, data):
     if found is None:
         ctx.notes.setdefault("samples_not_located", []).append(n)
         return
-    md = dict(zip(Mpeg.KEYS, found))
+    mst, mv = mdecode(ctx, "mpeg_vbr", data[found_at:found_at + 4096])
+    if mst != "ok":
+        ctx.disagree("c05.sample", "%s: model mpeg_vbr fails: %s" % (n, mv), {"sample": n})
+        return
+    md = dict(zip(VBR_KEYS, mv))
     ref = {k: md[k] for k in ("sample_rate", "channels", "layer", "mode", "protected", "padding")}
-    if info.sketchy or info.bitrate_mode == mp3.BitrateMode.UNKNOWN:
-        ref["bitrate"] = md["bitrate"]
     impl = {"bitrate": info.bitrate, "sample_rate": info.sample_rate, "channels": info.channels, "layer": info.layer, "mode": info.mode,
-            "protected": int(info.protected), "padding": int(info.padding)}
+            "protected": int(info.protected), "padding": int(info.padding), "length": info.length}
+    if md["kind"] != 0:
+        r2 = vbr_ref(md, len(data) - found_at)
+        ref["bitrate"] = r2["bitrate"]
+        ref["length"] = r2["length"]
+        ctx.count("sample-mpeg-vbr-kind:%d" % md["kind"])
+    elif not info.sketchy:
+        ref["bitrate"] = md["bitrate"]
+        ref["length"] = 8 * (len(data) - found_at) / float(md["bitrate"])
     bad = cmp_dicts(impl, ref)
     if int(info.version * 10) != md["version10"]:
         bad.append("version")
@@ -1374,6 +1510,7 @@ def run_mpeg(ctx, stride=1):
 
 def run(ctx):
     run_mpeg(ctx)
+    run_vbr(ctx, 400 if ctx.thorough else 80)
     run_generic(ctx, 120 if ctx.thorough else 25)
     F = BYNAME["flac"]
     for p in itertools.islice(F.params_lattice(ctx.rng), 0, None, 1 if ctx.thorough else 3):
@@ -1386,6 +1523,7 @@ def run(ctx):
 def search(ctx, broken):
     before = len(ctx.violations)
     run_mpeg(ctx)
+    run_vbr(ctx, 600)
     run_generic(ctx, 300, stop_on_violation=True)
     F = BYNAME["flac"]
     for p in F.params_lattice(ctx.rng):
@@ -1405,6 +1543,8 @@ def replay(ctx, payload):
         return not mpeg_case(ctx, Mpeg(), p, "replay")
     if fm == "mpeg_hdr":
         return not mpeg_invalid_case(ctx, Mpeg(), p)
+    if fm in ("mpeg_xing", "mpeg_vbri"):
+        return not vbr_case(ctx, fm[5:], p, [None if x == "-" else int(x) for x in d["tag"]], "replay")
     if fm == "flac_write":
         return not flac_write_case(ctx, p)
     F = BYNAME[fm]
